@@ -418,9 +418,11 @@ KINDS = ("spectrum",) * 6 + ("generic", "generic", "integer", "integer", "pure_i
 
 
 @st.composite
-def hermitian_cases(draw, tier, nmin=1):
+def hermitian_cases(draw, tier, nmin=1, size=None):
     nmax = 6 if tier == "quick" else 8
     sizes = [s for s in (1, 2, 3, 3, 4, 4, 4, 5, 5, 6, 6, 7, 8) if nmin <= s <= nmax]
+    if size:
+        sizes = list(range(size[0], size[1] + 1))
     n = draw(st.sampled_from(sizes))
     kind = draw(st.sampled_from(KINDS))
     sub = ""
@@ -541,7 +543,7 @@ def hermitian_cases(draw, tier, nmin=1):
             f = draw(st.sampled_from([1e-6, 1e-9, 1e-11, 1e-13, 1e-15]))
             off = ~np.eye(n, dtype=bool)
             A[off] = A[off] * f
-            d = draw(st.lists(st.integers(-8, 8), min_size=n, max_size=n, unique=True))
+            d = draw(st.lists(st.integers(-max(8, n), max(8, n)), min_size=n, max_size=n, unique=True))
             for i in range(n):
                 A[i, i] = [float(d[i]) + 0.5, 0, 0, 0]
         elif kind == "reflector":
@@ -889,6 +891,8 @@ PROPERTY = Property(
                budget={"quick": 4000, "thorough": 60000}),
         Clause("eigendecomposition", check_eig_generated, strategy=lambda tier: hermitian_cases(tier, nmin=1),
                budget={"quick": 4000, "thorough": 60000}),
+        Clause("moderate_size", check_long_generated, strategy=lambda tier: hermitian_cases(tier, size=(9, 20 if tier == "quick" else 40)),
+               budget={"quick": 40, "thorough": 400}, shrink=False),
         Clause("long_dimension", check_long_generated, strategy=long_hermitian_cases, budget={"quick": 16, "thorough": 160},
                shrink=False),
         Clause("witness_grid", check_witness, enumerate=enum_witnesses, budget={"quick": 0, "thorough": 0}),
